@@ -49,15 +49,28 @@ def _none_terminated(iterator):
     yield item
   yield None
 
+_MAX_TAG_NESTING = 90
+
 class _TextParser(HTMLParser):
 
   def __init__(self, paragraph: model.P, line_number: int) -> None:
     self.line_num: int = line_number
     self.parent: model.ContentElement = paragraph
     self.paragraph: model.P = paragraph
+    # number of open tags, and of open tags that are ignored because they are nested too deeply
+    self.depth: int = 0
+    self.ignored_depth: int = 0
     super().__init__()
 
   def handle_starttag(self, tag, attrs):
+
+    if self.depth >= _MAX_TAG_NESTING:
+      # the document is processed recursively downstream
+      LOGGER.warning("Tag %s at line %s is nested too deeply and is ignored", tag, self.line_num)
+      self.ignored_depth += 1
+      return
+
+    self.depth += 1
 
     span = model.Span(self.parent.get_doc())
     self.parent.push_child(span)
@@ -92,11 +105,16 @@ class _TextParser(HTMLParser):
       return
 
   def handle_endtag(self, tag):
+    if self.ignored_depth > 0:
+      self.ignored_depth -= 1
+      return
+
     if self.parent is self.paragraph:
       LOGGER.warning("Unmatched end tag %s at line %s", tag, self.line_num)
       return
 
     self.parent = self.parent.parent()
+    self.depth -= 1
 
   def handle_data(self, data):
     lines = data.split("\n")
